@@ -37,7 +37,7 @@ def main():
     pid, cin, cout = sys.argv[1:4]
     signal = _limits()
     import time
-    per_case = float(os.environ.get("VERIF_CASE_TIMEOUT", "30"))
+    per_case = float(os.environ.get("VERIF_CASE_TIMEOUT", "150"))
     budget = float(os.environ.get("VERIF_RUN_BUDGET", "420"))     # wall-clock seconds for the whole list of cases
     t0 = time.time()
     timeouts = 0
